@@ -195,15 +195,22 @@ def enc_shard(asm, acc, m, tier, seed, deadline):
 PCREL = {'beq', 'bne', 'blt', 'bge', 'bltu', 'bgeu', 'jal', 'c.jal', 'c.j', 'c.beqz', 'c.bnez'}
 
 
-def prog_line(m, tup, kw):
+def prog_line(m, tup, kw, spell=0):
     ops = [str(a) for a in tup]
+    if spell:
+        # a register given by number may be written the way any number may: hex, binary, octal, upper-case prefix, a zero as 00
+        for k, (kind, a) in enumerate(zip(operands.FORMATS[m], tup)):
+            if is_reg_kind(kind) and isinstance(a, int) and not isinstance(a, bool) and 0 <= a <= 31:
+                ops[k] = [hex(a), bin(a), oct(a), '0X%X' % a, '00' if a == 0 else '0x%02x' % a][(spell + k) % 5]
     if kw:
         ops += [str(kw['aq']), str(kw['rl'])]
     return m + (' ' + ', '.join(ops) if ops else '')
 
 
-def judge_program(asm, acc, m, tup, kw, alias=False):
-    line = prog_line(m, tup, kw)
+def judge_program(asm, acc, m, tup, kw, alias=False, spell=0):
+    line = prog_line(m, tup, kw, spell)
+    if spell:
+        acc['ctr']['prog_with_register_numbers_in_other_bases'] += 1
     pre = ''
     skip = 0
     if alias:
@@ -240,7 +247,7 @@ def judge_program(asm, acc, m, tup, kw, alias=False):
     o = monitors.observe(asm, pre + line, tap=False, preseed=ext)
     acc['ntkeys'].add(core.ckey('prog', line)) if status != operands.UNSPEC else None
     acc['ctr']['prog_' + status] += 1
-    case = {'kind': 'prog', 'm': m, 'args': list(tup), 'kw': kw or {}, 'alias': alias}
+    case = {'kind': 'prog', 'm': m, 'args': list(tup), 'kw': kw or {}, 'alias': alias, 'spell': spell}
     if not o.ok:
         if status == operands.ACCEPT:
             core.add_viol(acc, 'one-line program %r (representable operands) is refused: %s: %s' % ((pre + line).replace('\n', ' ; '), o.exc['type'], o.exc['msg']), case, {})
@@ -314,7 +321,7 @@ def prog_shard(asm, acc, sh, deadline):
         if m in operands.ATOMICS:
             kw = {'aq': rng.choice([0, 1, 0, 1, 2, -1]), 'rl': rng.choice([0, 1])}
         core.see(acc, 'mnemonics_prog', m)
-        judge_program(asm, acc, m, tup, kw, alias=(k % 4 == 3 and all(not isinstance(a, str) for a in tup)))
+        judge_program(asm, acc, m, tup, kw, alias=(k % 4 == 3 and all(not isinstance(a, str) for a in tup)), spell=(1 + k // 4 % 5) if k % 4 == 1 else 0)
         if k < 2:
             core.add_sample(acc, {'program': prog_line(m, tup, kw), 'model_says': operands.expected(m, tup, **(kw or {}))[0]})
         if time.time() > deadline:
@@ -479,5 +486,5 @@ def replay(case):
         if o.ok:
             core.add_viol(acc, 'one-line program %r (an operand with a fractional value) produced output %s' % (case['line'], o.out.hex()), case, {})
     else:
-        judge_program(asm, acc, case['m'], case['args'], case.get('kw') or None, alias=case.get('alias', False))
+        judge_program(asm, acc, case['m'], case['args'], case.get('kw') or None, alias=case.get('alias', False), spell=case.get('spell', 0))
     return acc
